@@ -66,25 +66,30 @@ pub fn string_to_tokens(file_id: usize, content: &str) -> Vec<PlacedToken> {
         // Contains side-effects.
         .map(|(token, byte_range)| {
             let is_newline = token == Token::Newline;
+            let line_start = line;
             let col_start = char_at_byte[byte_range.start].unwrap() - last_newline;
-            let col_end = char_at_byte[byte_range.end].unwrap() - last_newline;
-            let span = Span {
-                file_id,
-                col_start,
-                col_end,
-                line_start: line,
-                line_end: line,
-            };
-            if is_newline {
+            let (line_end, col_end) = if is_newline {
+                // The newline itself is the last thing on its line.
+                let col_end = char_at_byte[byte_range.end].unwrap() - last_newline;
                 last_newline = char_at_byte[byte_range.start].unwrap();
                 line += 1;
+                (line_start, col_end)
             } else {
-                // Tokens like strings can span multiple lines.
+                // Tokens like strings can span multiple lines - they end on the line, and at
+                // the column, where their last character is.
                 for (offset, _) in content[byte_range.clone()].match_indices('\n') {
                     last_newline = char_at_byte[byte_range.start + offset].unwrap();
                     line += 1;
                 }
-            }
+                (line, char_at_byte[byte_range.end].unwrap() - last_newline)
+            };
+            let span = Span {
+                file_id,
+                col_start,
+                col_end,
+                line_start,
+                line_end,
+            };
             PlacedToken { token, span }
         })
         .collect()
